@@ -330,6 +330,14 @@ func genMuxFacts(repo, out string, _ []string) error {
 	b.WriteString(leanList("appStateFields", asFields))
 	b.WriteString("/-- Statements in methods of those types that write through the receiver. -/\n")
 	b.WriteString(leanList("appStateWrites", asWrites))
+	bcUses, bcWriters, err := blockCtxFacts(repo)
+	if err != nil {
+		return err
+	}
+	b.WriteString("/-- Every use of the per-block context in go/consensus/cometbft (file:function: statement). -/\n")
+	b.WriteString(leanList("blockCtxUses", bcUses))
+	b.WriteString("/-- Calls of helpers that write the block context from a transaction handler. -/\n")
+	b.WriteString(leanList("blockCtxWriterCalls", bcWriters))
 	b.WriteString("end Generated.MuxFacts\n")
 	return os.WriteFile(out, []byte(b.String()), 0o644)
 }
